@@ -125,6 +125,23 @@ def build_machine(em, k, iterations=1):
     return mach, stats
 
 
+def subspace_prod(mach, M):
+    """M_c' diag(1/var_c) M_c per component, shape (C, r, r): the `UProd` / `VProd` argument the public block
+    updates take, computed here from public attributes (U/V, ubm.variances)."""
+    var = np.asarray(mach.ubm.variances, dtype=float)
+    C, D = var.shape
+    Mc = np.asarray(M, dtype=float).reshape(C, D, -1)
+    return np.einsum("cdr,cd,cds->crs", Mc, 1.0 / var, Mc)
+
+
+def class_sums(X):
+    """Zeroth and first order statistics pooled over the sessions of the single class: the `n_acc` / `f_acc`
+    arguments of the public block updates."""
+    n_acc = np.sum([np.asarray(s.n, dtype=float) for s in X], axis=0)[None]
+    f_acc = np.sum([np.asarray(s.sum_px, dtype=float) for s in X], axis=0)[None]
+    return n_acc, f_acc
+
+
 def call_step(em, rec):
     """Perform the exported action on the real objects, with the model's current latent state, the
     way `enroll` calls the block updates.  Returns the projected post-state {y, x, z}."""
@@ -135,13 +152,12 @@ def call_step(em, rec):
     ly = np.array([[_f(pre["y"])]]) if k["jfa"] else None
     lx = [np.array([[_f(q) for q in pre["x"]]])]            # (r_U, n_sessions) for the single class
     lz = np.array([[_f(q) for q in pre["z"]]])              # (1, C*D)
-    n_acc = mach._sum_n_statistics(X, labels, 1)
-    f_acc = mach._sum_f_statistics(X, labels, 1)
+    n_acc, f_acc = class_sums(X)
     if act == "UpdY":
-        ly = mach.update_y(X=X, y=labels, n_classes=1, VProd=mach._compute_vprod(), latent_x=lx, latent_y=ly,
+        ly = mach.update_y(X=X, y=labels, n_classes=1, VProd=subspace_prod(mach, mach.V), latent_x=lx, latent_y=ly,
                            latent_z=lz, n_acc=n_acc, f_acc=f_acc)
     elif act == "UpdX":
-        lx = mach.compute_latent_x(X=X, y=labels, n_classes=1, UProd=mach._compute_uprod(), latent_y=ly, latent_z=lz)
+        lx = mach.compute_latent_x(X=X, y=labels, n_classes=1, UProd=subspace_prod(mach, mach.U), latent_y=ly, latent_z=lz)
     elif act == "UpdZ":
         lz = mach.update_z(X=X, y=labels, latent_x=lx, latent_y=ly, latent_z=lz, n_acc=n_acc, f_acc=f_acc)
     elif act == "EnrollIter":
@@ -153,7 +169,7 @@ def call_step(em, rec):
         else:
             lz = np.asarray(out, dtype=float).reshape(1, -1)
         # the channel factors are not returned: x of the first iteration = compute_latent_x at (y_1, z = 0)
-        lx = mach.compute_latent_x(X=X, y=labels, n_classes=1, UProd=mach._compute_uprod(), latent_y=ly,
+        lx = mach.compute_latent_x(X=X, y=labels, n_classes=1, UProd=subspace_prod(mach, mach.U), latent_y=ly,
                                    latent_z=np.zeros_like(lz))
     else:
         raise ValueError(act)
